@@ -349,3 +349,55 @@ prop("C05",
      technique="bounded-exhaustive enumeration of injected sample sequences through the real compute_stats against an exact integer reference; scripted-clock runs of the real loop comparing recorded samples with the clock and statistics with the recorded samples",
      text="Every enumerated sample sequence is injected into a real BenchContext and compute_stats must return exactly min/s, max/s, floor-mean-of-middle/s, floor(total/(s*n)), sample and iteration counts, means over all samples, and allocation / counter figures of the very samples that supplied fastest, slowest and median (one consistent choice under ties), with no panic and no NaN, including for zero samples; scripted-clock loop runs additionally check recorded durations (overhead subtraction, precision floor) and per-input counter values against the event log.",
      note="Trusted: hooks stats_of / verif_parts / run_bencher, the virtual clock, and the reference in harness/mc-seq/src/bin/c05.rs.", engine="S")
+
+
+def c04_loop_scenarios(tier):
+    out = []
+    # thread 1 is slower (skew): the slowest thread / the latest end decides.
+    # n = 4 on T = 2 needs two rounds unless max_time (3 ns) is reached after the first:
+    # thread 0 takes 1 ns, thread 1 takes 4 ns.
+    for skip in (True, False):
+        out.append(_loop(loop_case(2, 2, 0, 2, 4, 1, skip_ext=skip, max_time_ns=3, thread_skew=3000, read_cost=0, alloc=[0] * 5, input_counters=0), pb=2))
+        out.append(_loop(loop_case(2, 2, 0, 2, 2, 1, skip_ext=skip, min_time_ns=3, thread_skew=3000, read_cost=0, alloc=[0] * 5, input_counters=0), pb=2))
+    if tier == "thorough":
+        for skip in (True, False):
+            out.append(_loop(loop_case(2, 2, 0, 2, 4, 1, skip_ext=skip, max_time_ns=3, thread_skew=3000, read_cost=0, alloc=[0] * 5, input_counters=0), pb=3))
+            out.append(_loop(loop_case(2, 2, 0, 2, 2, 1, skip_ext=skip, min_time_ns=6, max_time_ns=9, thread_skew=3000, read_cost=1, alloc=[0] * 5, input_counters=0), pb=2))
+    return out
+
+
+def c19_loop_scenarios(tier):
+    out = []
+    # 30 ns per call, thread 1 takes 30 ns more: at size 2 thread 0 measures 60 ns (below
+    # 101 x 1 ns), thread 1 measures 120 ns: the slowest thread ends tuning at size 2.
+    out.append(_loop(loop_case(2, 2, 0, 2, 2, None, cost=[[0], [0], [30000], [0], [0]], thread_skew=30000, read_cost=0, alloc=[0] * 5, input_counters=0), pb=2))
+    if tier == "thorough":
+        out.append(_loop(loop_case(2, 2, 0, 2, 2, None, cost=[[0], [0], [30000], [0], [0]], thread_skew=30000, read_cost=0, alloc=[0] * 5, input_counters=0), pb=3))
+        out.append(_loop(loop_case(4, 3, 3, 2, 2, None, cost=[[0], [0], [60000], [0], [0]], thread_skew=50000, read_cost=1), pb=2))
+    return out
+
+
+prop("C04",
+     quick=[{"engine": "S", "bin": "timemc", "args": ["--prop", "C04"], "parts": 8}, {"engine": "L", "prop": "C04", "scenarios": c04_loop_scenarios("quick")}],
+     thorough=[{"engine": "S", "bin": "timemc", "args": ["--prop", "C04"], "parts": 16, "timeout": 3000}, {"engine": "L", "prop": "C04", "scenarios": c04_loop_scenarios("thorough"), "timeout": 3000}],
+     assumptions=[
+         "clock histories: per-round (generation, call, drop) costs constant over {0, 0.4, 1, 2, 5} ns plus two-round alternations of the call cost (thorough: all four-round histories over {0,1,5} ns), per-read cost 0 or 1 tick; n in {1,2,3}, s in {1,2}; min_time in {unset,0,3,7,50 ns}, max_time in {unset,0,1,4,6 ns,Duration::MAX}",
+         "histories under which the loop cannot terminate within 64 rounds (frozen clock with min_time > 0 and external time counted, ...) are excluded and counted: no real clock behaves that way",
+         "T = 1 exhaustively; T = 2 ('slowest thread', 'latest end') in four loom scenarios with preemption bound 2 (3 thorough)",
+     ],
+     technique="bounded-exhaustive enumeration of (options x scripted clock history) on the real sample loop; the documented continue/stop rule is re-evaluated on the logged clock readings after every round (trace-checking reference); loom DPOR for the multi-thread clause",
+     text="For every enumerated configuration and clock history the real loop is run under the virtual clock; from the logged reads the elapsed time after each round is reconstructed by the documented rule (newest end minus initial start, or the sum of the slowest timed sections counted as at least 1 ns with skip_ext_time) and the loop must have executed exactly the smallest number of rounds R with elapsed_R >= max or (recorded >= n and elapsed_R >= min), 0 rounds for max = 0, max winning over min.",
+     note=LOOP_NOTE, engine="S+L")
+
+prop("C19",
+     quick=[{"engine": "S", "bin": "timemc", "args": ["--prop", "C19"], "parts": 16}, {"engine": "L", "prop": "C19", "scenarios": c19_loop_scenarios("quick")}],
+     thorough=[{"engine": "S", "bin": "timemc", "args": ["--prop", "C19"], "parts": 16, "timeout": 3000}, {"engine": "L", "prop": "C19", "scenarios": c19_loop_scenarios("thorough"), "timeout": 3000}],
+     assumptions=[
+         "forced precision 1000 ps; per-iteration cost models: constant from precision/10 to 10^4 x precision, growing, shrinking, 81 noisy four-round patterns; sample counts {1,2,3,100}; max_time cutting tuning after 1-3 rounds; min_time and skip_ext_time on/off",
+         "zero-cost functions under a frozen clock (the size would overflow u32 after 32 doublings) are excluded and counted",
+         "when max_time ends the run before any round passed the threshold the statement does not say what is reported; the check requires only that all reported samples have one size (the newest round's)",
+         "T = 1 exhaustively; the 'slowest thread' clause for T = 2 in loom scenarios with preemption bound 2 (3 thorough)",
+     ],
+     technique="bounded-exhaustive enumeration of (cost model x options) on the real sample loop in tuning mode; reference tuner re-evaluated on the logged clock readings (round sizes, threshold round, kept samples, stale data)",
+     text="For every cost model and option set the real loop is run with automatic sample size; the reference tuner over the logged reads requires round sizes 1,2,4,... until the first round whose slowest sample measures more than 100 whole multiples of the precision, that size for all later rounds, recorded samples = threshold round onwards with tallies and per-input counter values of earlier rounds gone, and the max_time rule applied to elapsed time including the tuning rounds.",
+     note=LOOP_NOTE, engine="S+L")
